@@ -9,8 +9,22 @@ Spec:  Spec/Rings.lean (rings of oriented fragments, molecules up to rotation an
 `emitted pool` is everything ever sent on the construct channel (depth-first order); the order
 in which the collector receives it is decided by the scheduler, so every clause about the RESULT
 is stated for an arbitrary arrival order `arr` with `arr.Perm (emitted pool)`, and
-`ligate_schedule` shows that these are exactly the lists a maximal run of the goroutine system can
-deliver.  `GoldenGate(parts, enzyme)` is `CircularLigate` on the concatenated cuts
+`ligate_schedule` shows that every list a maximal run of the goroutine system can deliver is such a
+permutation (only this inclusion is proved — and needed: the other clauses quantify over the superset
+of all permutations).
+
+"Exactly": `ligate_exact` characterises what is sent — the molecules of the rings of class `OneLap`
+(first fragment as supplied, no return to its forward overhang before closing, flips only at
+non-palindromic overhangs) and nothing else; `ligate_designed` is the equality for the property's
+quantifier: on a `designed` pool the returned molecules are exactly those of the simple rings (the
+designed plasmids), each exactly once.  Designed assemblies do have further rings (multi-lap
+concatemers of alternatives); the code does not return them and on designed pools the judge forbids them.
+
+The goroutine system `Sys`/`Step` (Model/Ligate.lean) is transcribed BY HAND from clone.go lines 264-343
+(`recurseLigate`, `getConstructs`, `CircularLigate`); `ligate_schedule` / `ligate_terminates` are theorems
+about all runs of THAT system.  Nothing extracts the structure from the source: moving `wg.Add` into the
+child, buffering the channel or changing the collector would leave them green — only the
+GOMAXPROCS / `-race` runs of the correspondence check observe the real runtime.  `GoldenGate(parts, enzyme)` is `CircularLigate` on the concatenated cuts
 (`goldenGate_eq`), so every theorem applies to it with `pool := goldenGatePool cut parts`.
 
 The key of the collector is modelled as the canonical form that `seqhash.Hash` digests
@@ -138,6 +152,89 @@ example : let f₁ : Fragment := flip ⟨"AC".toList, "AATG".toList, "GCTT".toLi
     let f₂ : Fragment := flip ⟨"GG".toList, "GCTT".toList, "AATG".toList⟩
     dnaPool [f₁, f₂] = true ∧ Ring [f₁, f₂] [⟨f₁, true⟩, ⟨f₂, true⟩] ∧ Simple [⟨f₁, true⟩, ⟨f₂, true⟩] := by decide
 
+/-! ### exactly: the characterisation, and the equality on designed assemblies -/
+
+/-- EXACTLY what is sent: the molecules of the rings that start with a pool fragment in its supplied
+orientation, do not return to that fragment's forward overhang before they close, and attach flipped
+fragments only at non-self-complementary overhangs. -/
+theorem ligate_exact (pool : List Fragment) (c : Str) :
+    c ∈ emitted pool ↔
+      ∃ f suf, Ring pool (⟨f, false⟩ :: suf) ∧ OneLap f suf ∧ c = molecule (⟨f, false⟩ :: suf) := by
+  constructor
+  · intro hc
+    obtain ⟨f, hf, hc⟩ := mem_emitted.1 hc
+    obtain ⟨ext, hr, he, hj, hp⟩ := sound_aux pool _ f [f] ⟨f, false⟩ [] (Chain.start hf) c hc
+    exact ⟨f, ext, by simpa using hr, ⟨hj, hp⟩, by simpa using he⟩
+  · rintro ⟨f, suf, hr, ⟨hj, hp⟩, rfl⟩
+    exact complete_from_head hr hj hp
+
+/-- the same for the set of molecules (keys) `CircularLigate` returns, whatever the arrival order -/
+theorem ligate_exact_result (pool : List Fragment) {arr : List Str} (harr : arr.Perm (emitted pool)) (k : Key) :
+    k ∈ (circularLigate pool arr).map key ↔
+      ∃ f suf, Ring pool (⟨f, false⟩ :: suf) ∧ OneLap f suf ∧ k = key (molecule (⟨f, false⟩ :: suf)) := by
+  unfold circularLigate getConstructs
+  rw [mem_keys_getConstructsWith, List.mem_map]
+  constructor
+  · rintro ⟨c, hc, rfl⟩
+    obtain ⟨f, suf, hr, ho, rfl⟩ := (ligate_exact pool c).1 (harr.mem_iff.1 hc)
+    exact ⟨f, suf, hr, ho, rfl⟩
+  · rintro ⟨f, suf, hr, ho, rfl⟩
+    exact ⟨_, harr.mem_iff.2 ((ligate_exact pool _).2 ⟨f, suf, hr, ho, rfl⟩), rfl⟩
+
+theorem dnaPool_of_designed {pool : List Fragment} (hd : designed pool = true) : dnaPool pool = true := by
+  simp only [designed, Bool.and_eq_true] at hd
+  exact hd.1.1
+
+/-- The property on its quantifier.  For a designed assembly (`designed pool`: ACGT, no self-complementary
+overhang, among non-dead-end oriented fragments the forward overhang determines the reverse overhang), in
+every arrival order, the molecules `CircularLigate` returns are EXACTLY the molecules of the simple rings —
+none missing, none spurious (in particular no multi-lap concatemer of alternatives) — and
+(`ligate_unique_keys`) no molecule twice. -/
+theorem ligate_designed (pool : List Fragment) (hd : designed pool = true) {arr : List Str}
+    (harr : arr.Perm (emitted pool)) (k : Key) :
+    k ∈ (circularLigate pool arr).map key ↔ ∃ os, Ring pool os ∧ Simple os ∧ k = key (molecule os) := by
+  have hdna := dnaPool_of_designed hd
+  constructor
+  · intro hk
+    obtain ⟨f, suf, hr, ho, rfl⟩ := (ligate_exact_result pool harr k).1 hk
+    exact ⟨_, hr, designed_oneLap_simple hd hr ho, rfl⟩
+  · rintro ⟨os, hr, hs, rfl⟩
+    obtain ⟨c, hc, hsm⟩ := ligate_complete pool hdna hr hs harr
+    have hdc : isDna c = true := by
+      obtain ⟨os', hr', rfl⟩ := ligate_sound_result pool harr c hc
+      exact isDna_molecule hdna hr'.mem
+    rw [(key_eq_iff (isDna_molecule hdna hr.mem) hdc).2 hsm]
+    exact List.mem_map.2 ⟨c, hc, rfl⟩
+
+/-- … each distinct ring exactly once: for every simple ring of a designed pool there is exactly one returned
+construct that is its molecule up to rotation and strand -/
+theorem ligate_designed_once (pool : List Fragment) (hd : designed pool = true) {arr : List Str}
+    (harr : arr.Perm (emitted pool)) {os : List Oriented} (hr : Ring pool os) (hs : Simple os) :
+    ∃ c ∈ circularLigate pool arr, SameMolecule (molecule os) c ∧
+      ∀ c' ∈ circularLigate pool arr, SameMolecule (molecule os) c' → c' = c := by
+  have hdna := dnaPool_of_designed hd
+  obtain ⟨c, hc, hsm⟩ := ligate_complete pool hdna hr hs harr
+  refine ⟨c, hc, hsm, fun c' hc' hsm' => ?_⟩
+  have hdm := isDna_molecule hdna hr.mem
+  have hd1 : isDna c = true := by
+    obtain ⟨os', hr', rfl⟩ := ligate_sound_result pool harr c hc
+    exact isDna_molecule hdna hr'.mem
+  have hd2 : isDna c' = true := by
+    obtain ⟨os', hr', rfl⟩ := ligate_sound_result pool harr c' hc'
+    exact isDna_molecule hdna hr'.mem
+  have hk : key c' = key c := by rw [← (key_eq_iff hdm hd2).2 hsm', (key_eq_iff hdm hd1).2 hsm]
+  exact List.inj_on_of_nodup_map (getConstructsWith_nodup key arr) hc' hc hk
+
+-- non-vacuity: the strict 2 × 2 design of the review (6 rings, 4 of them simple) is `designed`
+example : designed [⟨"AC".toList, "AATG".toList, "GCTT".toList⟩, ⟨"GG".toList, "GCTT".toList, "AATG".toList⟩,
+    ⟨"TT".toList, "AATG".toList, "GCTT".toList⟩, ⟨"CA".toList, "GCTT".toList, "AATG".toList⟩] = true := by decide
+-- … with a dead-end decoy and a fragment supplied on the other strand it still is
+example : designed [⟨"AC".toList, "AATG".toList, "GCTT".toList⟩, flip ⟨"GG".toList, "GCTT".toList, "AATG".toList⟩,
+    ⟨"TT".toList, "AATG".toList, "CCGA".toList⟩] = true := by decide
+-- … a pool with a backward fragment (s, f, g, h of the findings note) is not
+example : designed [⟨"AC".toList, "AATG".toList, "GCTT".toList⟩, ⟨"GG".toList, "GCTT".toList, "CCGA".toList⟩,
+    ⟨"TT".toList, "CCGA".toList, "GCTT".toList⟩, ⟨"CA".toList, "GCTT".toList, "AATG".toList⟩] = false := by decide
+
 /-! ### unique: no molecule twice -/
 
 /-- the key of the model is the canonical form `seqhash.Hash` digests: the hash model of C04/C05 returns
@@ -232,12 +329,15 @@ theorem fuel_never_exhausted (pool : List Fragment) : ∀ w ∈ seedWorks pool, 
   obtain ⟨f, hf, rfl⟩ := List.mem_map.1 hw
   exact noStuck_aux pool _ f [f] (unused_seed_lt hf)
 
-/-- For EVERY interleaving of main, the `recurseLigate` goroutines and the collector (unbuffered channel,
+/-- About the Step system of Model/Ligate.lean (hand-transcribed from clone.go 264-343), not about the Go
+runtime.  For EVERY interleaving of main, the `recurseLigate` goroutines and the collector (unbuffered channel,
 `wg.Add` before `go`, `wg.Done` last, `close` after `wg.Wait`): no goroutine ever sends on the closed
 channel and the WaitGroup counter never goes negative (`panicked = false`); when `close(c)` has been
 executed no send is pending and everything has been received (close happens after the last send); and a
 run can only stop after the collector has handed over a list `arr` that is a permutation of all sends —
-for which `CircularLigate` returns the same set of molecules as under the depth-first schedule. -/
+for which `CircularLigate` returns the same set of molecules as under the depth-first schedule.
+(Only "delivered ⇒ permutation of the sends" is proved; that every permutation is delivered by some run is
+neither claimed nor needed.) -/
 theorem ligate_schedule (pool : List Fragment) {s : Sys} (hr : Reach (Sys.init (seedWorks pool)) s) :
     s.panicked = false ∧
     (s.closed = true → pending s = [] ∧ s.recvd.Perm (emitted pool)) ∧
@@ -250,7 +350,9 @@ theorem ligate_schedule (pool : List Fragment) {s : Sys} (hr : Reach (Sys.init (
 
 /-! ### terminates -/
 
-/-- For every finite pool: the recursion tree of every seed is finite with `go`-nesting depth at most
+/-- About the model's spawn tree and Step system (see `ligate_schedule`).  The bound `variant` is the size of
+the spawn trees and can be factorial in `|pool|` (a tail `X→B` plus n fragments `B→B`): termination, not speed.
+For every finite pool: the recursion tree of every seed is finite with `go`-nesting depth at most
 `|pool|` and is never cut off by the model's fuel; every run of the goroutine system has at most
 `variant (init)` steps, so there is no infinite run; and a run that cannot continue has delivered. -/
 theorem ligate_terminates (pool : List Fragment) :
